@@ -283,6 +283,74 @@ class SymWorld(BaseWorld):
             goal = z3.BoolVal(goal)
         return self.c.prove(name, goal, kind=kind, hyps=hyps, detail=detail)
 
+
+    # ---- proof rules over finite sums (each is an instance of a lemma proved in fvc.lemmas)
+    def forall_range(self, name, ranges, pred, kind="post", detail="", hyps=()):
+        idx = []
+        hs = list(hyps)
+        for j, (lo, hi) in enumerate(ranges):
+            v = self.c.fresh(f"k{j}", "int")
+            idx.append(wrap(v))
+            hs += [v >= to_int(lo), v < to_int(hi)]
+            self.c.watch(f"{name}.idx{j}", v)
+        goal = pred(tuple(idx))
+        if isinstance(goal, bool):
+            goal = z3.BoolVal(goal)
+        return self.c.prove(name, goal, kind=kind, hyps=hs, detail=detail)
+
+    def sum1(self, tag, lo, hi, f):
+        """Sum_{lo <= j < hi} f(j)"""
+        return self.sum([(tag, lo, hi)], lambda idx: f(idx[0]))
+
+    def lemma_sum_ext(self, name, lo, hi, f, g):
+        """SUM-EXT: pointwise equal on [lo,hi)  =>  equal sums"""
+        self.forall_range(f"{name}.pointwise", [(lo, hi)], lambda idx: self.num_eq(f(idx[0]), g(idx[0])), kind="lemma-premise")
+        self.c.assume(to_real(self.sum1("e", lo, hi, f)) == to_real(self.sum1("e", lo, hi, g)), why="SUM-EXT")
+
+    def lemma_sum_delta(self, name, lo, hi, t, X):
+        """SUM-DELTA: Sum_j [j == t] * X = X for lo <= t < hi"""
+        self.prove(f"{name}.in_range", wrap(z3.And(to_int(t) >= to_int(lo), to_int(t) < to_int(hi))), kind="lemma-premise")
+        s = self.sum1("d", lo, hi, lambda j: core.site(j == t, X, 0))
+        self.c.assume(to_real(s) == to_real(X), why="SUM-DELTA")
+        return s
+
+    def lemma_sum_zero(self, name, lo, hi, f):
+        self.forall_range(f"{name}.pointwise_zero", [(lo, hi)], lambda idx: self.num_eq(f(idx[0]), 0), kind="lemma-premise")
+        self.c.assume(to_real(self.sum1("z", lo, hi, f)) == 0, why="SUM-ZERO")
+
+    def lemma_sum_split(self, name, lo, mid, hi, f):
+        self.prove(f"{name}.ordered", wrap(z3.And(to_int(lo) <= to_int(mid), to_int(mid) <= to_int(hi))), kind="lemma-premise")
+        self.c.assume(to_real(self.sum1("s", lo, hi, f)) == to_real(self.sum1("s", lo, mid, f)) + to_real(self.sum1("s", mid, hi, f)), why="SUM-SPLIT")
+
+    def lemma_sum_unfold_last(self, name, lo, hi, f):
+        self.prove(f"{name}.nonempty", wrap(to_int(hi) > to_int(lo)), kind="lemma-premise")
+        self.c.assume(to_real(self.sum1("u", lo, hi, f)) == to_real(self.sum1("u", lo, hi - 1, f)) + to_real(f(hi - 1)), why="SUM-UNFOLD")
+
+    def lemma_telescope(self, name, lo, hi, G):
+        """TELESCOPE: Sum_{lo<=k<hi} (G(k-1) - G(k)) = G(lo-1) - G(hi-1)   (lo <= hi)"""
+        self.prove(f"{name}.ordered", wrap(to_int(lo) <= to_int(hi)), kind="lemma-premise")
+        s = self.sum1("t", lo, hi, lambda k: G(k - 1) - G(k))
+        self.c.assume(to_real(s) == to_real(G(lo - 1)) - to_real(G(hi - 1)), why="TELESCOPE")
+
+    def lemma_sum_nonneg(self, name, lo, hi, f):
+        self.forall_range(f"{name}.pointwise_nonneg", [(lo, hi)], lambda idx: wrap(to_real(f(idx[0])) >= 0), kind="lemma-premise")
+        self.c.assume(to_real(self.sum1("n", lo, hi, f)) >= 0, why="SUM-NONNEG")
+
+    def ite(self, c, a, b):
+        return core.site(c, a, b)
+
+    def b_and(self, *xs):
+        return core.sand(*xs)
+
+    def b_or(self, *xs):
+        return core.sor(*xs)
+
+    def b_not(self, x):
+        return core.snot(x)
+
+    def implies(self, a, b):
+        return core.simplies(a, b)
+
     def elem(self, arr, idx):
         """element of an ndarray-like at index tuple"""
         if isinstance(arr, symnp.SymArr):
@@ -480,6 +548,55 @@ class ConcWorld(BaseWorld):
         for idx in itertools.product(*[range(int(n)) for n in sizes]):
             if not bool(pred(tuple(idx))):
                 raise ContractViolation(name, f"{detail} at index {idx}")
+
+
+    def forall_range(self, name, ranges, pred, kind="post", detail="", hyps=()):
+        self.checked += 1
+        if not all(bool(h) for h in hyps):
+            return
+        for idx in itertools.product(*[range(int(lo), int(hi)) for lo, hi in ranges]):
+            if not bool(pred(tuple(idx))):
+                raise ContractViolation(name, f"{detail} at index {idx}")
+
+    def sum1(self, tag, lo, hi, f):
+        return self.sum([(tag, lo, hi)], lambda idx: f(idx[0]))
+
+    def lemma_sum_ext(self, name, lo, hi, f, g):
+        self.forall_range(f"{name}.pointwise", [(lo, hi)], lambda idx: self.num_eq(f(idx[0]), g(idx[0])))
+
+    def lemma_sum_delta(self, name, lo, hi, t, X):
+        self.prove(f"{name}.in_range", int(lo) <= int(t) < int(hi))
+        return X
+
+    def lemma_sum_zero(self, name, lo, hi, f):
+        self.forall_range(f"{name}.pointwise_zero", [(lo, hi)], lambda idx: self.num_eq(f(idx[0]), 0))
+
+    def lemma_sum_split(self, name, lo, mid, hi, f):
+        self.prove(f"{name}.ordered", int(lo) <= int(mid) <= int(hi))
+
+    def lemma_sum_unfold_last(self, name, lo, hi, f):
+        self.prove(f"{name}.nonempty", int(hi) > int(lo))
+
+    def lemma_telescope(self, name, lo, hi, G):
+        self.prove(f"{name}.ordered", int(lo) <= int(hi))
+
+    def lemma_sum_nonneg(self, name, lo, hi, f):
+        self.forall_range(f"{name}.pointwise_nonneg", [(lo, hi)], lambda idx: float(f(idx[0])) >= -1e-12)
+
+    def ite(self, c, a, b):
+        return a if bool(c) else b
+
+    def b_and(self, *xs):
+        return all(bool(x) for x in xs)
+
+    def b_or(self, *xs):
+        return any(bool(x) for x in xs)
+
+    def b_not(self, x):
+        return not bool(x)
+
+    def implies(self, a, b):
+        return (not bool(a)) or bool(b)
 
     def elem(self, arr, idx):
         if isinstance(arr, _np.ndarray):
